@@ -165,7 +165,7 @@ Section ToInv.
     - reflexivity.
     - intros o Ho. discriminate.
     - intros v o Hv. apply (Hrep _ 0%nat) in Hv. discriminate.
-    - split; apply replicate_length.
+    - repeat split; apply replicate_length.
     - intros i w Hi. apply (Hrep _ WNull) in Hi. subst w. intros o Ho. discriminate.
     - intros w Hw. inversion Hw.
     - intros p xp j w Hp. destruct p; discriminate.
@@ -258,7 +258,7 @@ Section Top.
   Qed.
 End Top.
 
-
 Print Assumptions step_ok_noncollector.
 Print Assumptions safe_programs.
 Print Assumptions Inv_iff.
+
